@@ -178,6 +178,16 @@ def _check_dt(plan, ctx):
         if build.cells(via) != got or np.asarray(via).dtype != np.asarray(out).dtype:
             raise Violation(f"Vector.dt.{name}() differs from dt.{name}(vector)", proxy=build.cells(via), module=got)
         if n >= 2:
+            # history: query, write into the same vector object in place (here: its elements reversed), query again
+            y = x.copy()
+            f(y)
+            y[:] = np.asarray(y)[::-1].copy()
+            again = build.cells(ctx.call(f"dt.{name}", f, y))
+            if len(again) != n or not all(build.same_cell(a, b, numeric_loose=True) for a, b in zip(again, want[::-1])):
+                raise Violation(f"dt.{name} answers for the old contents after the vector was written to in place",
+                                got=again, want=want[::-1], input=vals[::-1])
+            ctx.cls("queried_again_after_an_in_place_write")
+        if n >= 2:
             # history: the proxy of x has been used; vectors derived from x have proxies of their own
             for label, y in (("x[::-1]", x[::-1]), ("x[1:]", x[1:]), ("x.copy()[:1]", x.copy()[:1])):
                 a = build.cells(ctx.call(f"{label}.dt.{name}()", lambda: getattr(y.dt, name)()))
